@@ -1405,3 +1405,108 @@ def sc9(model):
     else:
         r.fail(mx[0] if mx else f.node, 'Scanner.scan does not scan up to len(%s)' % lat)
     return r
+
+
+# ----------------------------------------------------------------------------- CK14 / CK15
+def ck14(model):
+    import re._parser as sre_parse
+    import re._constants as sre_c
+    from .. import tok as T
+    r = RuleResult('CK14', 'single-letter check marks letters only: the character class of the scan pattern is built '
+                   'from the word class (\\w minus digits and _), which also holds non-ASCII digits, superscripts and '
+                   'other numeric characters (str.isalnum() but not str.isalpha()); therefore the matches are filtered '
+                   'with str.isalpha(), or the class consists of explicit letter ranges only', floor=1)
+    f = model.func('shell.checks.create_single_letter_matches')
+    lits = [n for n in ast.walk(f.node) if isinstance(n, ast.Constant) and isinstance(n.value, str)
+            and n.value.startswith(r'\b') and n.value.endswith(r'\b') and '[' in n.value]
+    if not lits:
+        raise AnalysisError('anchor vanished: single-letter pattern in create_single_letter_matches')
+    for c in lits:
+        try:
+            items = list(sre_parse.parse(c.value))
+        except Exception as e:
+            r.undec(c, 'pattern not parsed: %s' % e)
+            r.instances += 1
+            continue
+        cls = [i for i in items if i[0] is sre_c.IN]
+        if len(cls) != 1:
+            r.undec(c, 'pattern is not one character class between boundaries')
+            r.instances += 1
+            continue
+        uses_category = any(op is sre_c.CATEGORY for op, av in cls[0][1])
+        negated = any(op is sre_c.NEGATE for op, av in cls[0][1])
+        explicit_ok = False
+        if not uses_category and not negated:
+            chars = []
+            for op, av in cls[0][1]:
+                if op is sre_c.LITERAL:
+                    chars.append(av)
+                elif op is sre_c.RANGE and av[1] - av[0] < 0x3000:
+                    chars += list(range(av[0], av[1] + 1))
+                else:
+                    chars = None
+                    break
+            explicit_ok = chars is not None and all(chr(x).isalpha() for x in chars)
+        # filter: a condition of the selection calls .isalpha() on the matched text
+        filt = False
+        for n in ast.walk(f.node):
+            if isinstance(n, ast.Call) and isinstance(n.func, ast.Attribute) and n.func.attr == 'isalpha' and not n.args:
+                v = n.func.value
+                txt = unparse(v)
+                mvars = {a.target.id for a in ast.walk(f.node) if isinstance(a, (ast.For, ast.comprehension))
+                         and isinstance(a.target, ast.Name) and 'finditer' in unparse(a.iter)}
+                if (isinstance(v, ast.Call) and T.call_name(v) == 'group' and isinstance(v.func.value, ast.Name)
+                        and v.func.value.id in mvars) \
+                        or (isinstance(v, ast.Subscript) and T.is_const(v.slice, 0) and isinstance(v.value, ast.Name)
+                            and v.value.id in mvars):
+                    # in a condition (comprehension if / if statement / and-chain), not negated
+                    p = getattr(n, '_parent', None)
+                    neg = False
+                    while p is not None and not isinstance(p, (ast.comprehension, ast.If, ast.stmt)):
+                        if isinstance(p, ast.UnaryOp) and isinstance(p.op, ast.Not):
+                            neg = not neg
+                        p = getattr(p, '_parent', None)
+                    if not neg:
+                        filt = True
+        if explicit_ok:
+            r.ok(c, 'explicit letter ranges only', nontrivial=True)
+        elif filt:
+            r.ok(c, 'matches are filtered with str.isalpha()', nontrivial=True)
+        else:
+            r.fail(c, 'the class of %s holds every word character except ASCII digits and _: characters such as '
+                   '², ½ or Arabic-Indic digits are reported as "single letters"; no str.isalpha() '
+                   'filter is applied to the matches' % c.value,
+                   witness="--single-letters '' on the text 'x ² y'")
+    return r
+
+
+def ck15(model):
+    from .. import tok as T
+    r = RuleResult('CK15', 'accepted patterns are looked up one by one: the hits that suppress a single letter come from '
+                   're.finditer of each accepted pattern, not of their alternation (in a|b the first alternative '
+                   'that matches wins, so an accepted pattern that starts like a shorter one never matches)', floor=1)
+    f = model.func('shell.checks.create_single_letter_matches')
+    calls = [n for n in ast.walk(f.node) if isinstance(n, ast.Call) and T.call_name(n) == 'finditer' and n.args]
+    if not calls:
+        raise AnalysisError('anchor vanished: finditer in create_single_letter_matches')
+    seen = False
+    for c in calls:
+        pat = c.args[0]
+        vals = T.resolve_local(model, pat) if isinstance(pat, ast.Name) else [pat]
+        joined = [v for v in vals if isinstance(v, ast.Call) and isinstance(v.func, ast.Attribute) and v.func.attr == 'join'
+                  and isinstance(v.func.value, ast.Constant) and '|' in str(v.func.value.value)]
+        if joined:
+            seen = True
+            r.fail(c, 'the accepted patterns are joined with | and searched as one alternation: with the accept '
+                   'list z.|z.\\,B. the text "z. B." is matched by the first alternative only and the B is '
+                   'reported although an accepted pattern covers it',
+                   witness="--single-letters 'z.|z.\\\\,B.' on 'Stutz z. B. und'")
+        elif isinstance(pat, ast.Name) and any(
+                isinstance(a, (ast.For, ast.comprehension)) and isinstance(a.target, ast.Name) and a.target.id == pat.id
+                for a in ast.walk(f.node)):
+            seen = True
+            r.ok(c, 'finditer per accepted pattern', nontrivial=True)
+    if not seen:
+        r.undec(f.node, 'lookup of the accepted patterns not recognised')
+        r.instances += 1
+    return r
